@@ -525,6 +525,13 @@ class Interp:
                 raise Unsupported("projection %s" % (e,))
         return ptr
 
+    def index_sub(self, ptr, a, b):
+        """pointer to the sub-slice [a, b) of the sequence ptr points to"""
+        if ptr.path and isinstance(ptr.path[-1], tuple) and ptr.path[-1][0] == "sub":
+            o = ptr.path[-1][1]
+            return Ptr(ptr.cell, ptr.path[:-1] + (("sub", o + a, o + b),), b - a)
+        return Ptr(ptr.cell, ptr.path + (("sub", a, b),), b - a)
+
     def index_ptr(self, ptr, i):
         """pointer to element i of the sequence ptr points to (offsets of sub-slices are folded)"""
         if ptr.path and isinstance(ptr.path[-1], tuple) and ptr.path[-1][0] == "sub":
